@@ -39,6 +39,8 @@ VTT_LINES = [
     ("<i>it</i> <b>b</b><u>u</u>", "it bu"),
     ("<v Bob>hi there", "Bob: hi there"),
     ("<v.loud Bob>hi</v>", "Bob: hi"),
+    ("<v\tFred>tab before the name", "Fred: tab before the name"),
+    ("<v.loud-x.first Fred>classes with a hyphen", "Fred: classes with a hyphen"),
     ("<c.yellow>col</c>our", "colour"),
     ("<ruby>base<rt>top</rt></ruby>", "basetop"),
     ("<lang en>x</lang>y", "xy"),
